@@ -10,6 +10,10 @@ theorem trimStart_length_le (l : List PTok) : (trimStart l).length ≤ l.length 
   unfold trimStart
   exact List.Sublist.length_le (List.dropWhile_sublist _)
 
+theorem trimStartAll_length_le (l : List PTok) : (trimStartAll l).length ≤ l.length := by
+  unfold trimStartAll
+  exact List.Sublist.length_le (List.dropWhile_sublist _)
+
 theorem trimEnd_length_le (l : List PTok) : (trimEnd l).length ≤ l.length := by
   unfold trimEnd
   have := List.Sublist.length_le (List.dropWhile_sublist (fun t : PTok => t.tok.isBlank) (l := l.reverse))
@@ -103,7 +107,7 @@ theorem scanArgs_not_guard (ts cur : List PTok) (args : List (List PTok)) (depth
 
 theorem splitArgs_spec (name : String) (remaining rest : List PTok) (args : List (List PTok))
     (h : splitArgs name remaining = .ok (rest, args)) :
-    ∃ b tail, trimStart remaining = ⟨.lparen, b⟩ :: tail ∧ rest.length < tail.length ∧
+    ∃ b tail, trimStartAll remaining = ⟨.lparen, b⟩ :: tail ∧ rest.length < tail.length ∧
       ∀ a ∈ args, a.length + 1 ≤ tail.length := by
   unfold splitArgs at h
   split at h
@@ -123,53 +127,71 @@ theorem splitArgs_not_guard (name : String) (remaining : List PTok) (w : String)
   · exact scanArgs_not_guard _ _ _ _ _
   · simp
 
+/-- a successful `readArgs` of a function-like macro is a successful `split_macro_args` (the arity tests only reject) -/
+theorem readArgs_ok_function (m : Macro) (remaining rest : List PTok) (args : List (List PTok))
+    (hf : m.isFunction = true) (h : readArgs m remaining = .ok (rest, args)) :
+    splitArgs m.name remaining = .ok (rest, args) := by
+  unfold readArgs at h
+  simp only [hf, if_true] at h
+  cases hs : splitArgs m.name remaining with
+  | error e => simp [hs] at h
+  | ok ra =>
+    obtain ⟨r1, a1⟩ := ra
+    simp only [hs] at h
+    split at h
+    · split at h
+      · split at h
+        · cases h; rfl
+        · cases h
+      · cases h
+    · split at h
+      · cases h
+      · cases h; rfl
+
+/-- an error of `readArgs` is the arity error or an error of `split_macro_args` -/
+theorem readArgs_error (m : Macro) (remaining : List PTok) (e : Err) (h : readArgs m remaining = .error e) :
+    e = .macroExpectsDifferentNumberOfArguments ∨ splitArgs m.name remaining = .error e := by
+  unfold readArgs at h
+  split at h
+  · cases hs : splitArgs m.name remaining with
+    | error e' => simp only [hs] at h; cases h; exact Or.inr rfl
+    | ok ra =>
+      obtain ⟨r1, a1⟩ := ra
+      simp only [hs] at h
+      split at h
+      · split at h
+        · split at h
+          · cases h
+          · cases h; exact Or.inl rfl
+        · cases h; exact Or.inl rfl
+      · split at h
+        · cases h; exact Or.inl rfl
+        · cases h
+  · cases h
+
 /-- `readArgs` on the tokens after the macro name: where the invocation ends and how long the arguments are -/
 theorem readArgs_spec (m : Macro) (remaining rest : List PTok) (args : List (List PTok))
     (h : readArgs m remaining = .ok (rest, args)) :
     if m.isFunction then
-      ∃ b tail, trimStart remaining = ⟨.lparen, b⟩ :: tail ∧ rest.length < tail.length ∧
+      ∃ b tail, trimStartAll remaining = ⟨.lparen, b⟩ :: tail ∧ rest.length < tail.length ∧
         ∀ a ∈ args, a.length + 1 ≤ tail.length
     else rest = remaining ∧ args = [] := by
-  unfold readArgs at h
   cases hf : m.isFunction with
   | true =>
-    simp only [hf, if_true] at h ⊢
-    cases hs : splitArgs m.name remaining with
-    | error e => simp [hs] at h
-    | ok ra =>
-      obtain ⟨r1, a1⟩ := ra
-      simp only [hs] at h
-      have : r1 = rest ∧ a1 = args := by
-        split at h
-        · split at h
-          · cases h; exact ⟨rfl, rfl⟩
-          · cases h
-        · split at h
-          · cases h
-          · cases h; exact ⟨rfl, rfl⟩
-      obtain ⟨rfl, rfl⟩ := this
-      exact splitArgs_spec m.name remaining r1 a1 hs
+    simp only [if_true]
+    exact splitArgs_spec m.name remaining rest args (readArgs_ok_function m remaining rest args hf h)
   | false =>
+    unfold readArgs at h
     simp only [hf] at h ⊢
     cases h
     exact ⟨rfl, rfl⟩
 
 theorem readArgs_not_guard (m : Macro) (remaining : List PTok) (w : String) :
     readArgs m remaining ≠ .error (.guard w) := by
-  unfold readArgs
-  split
-  · cases hs : splitArgs m.name remaining with
-    | error e =>
-      simp only
-      intro h
-      cases h
-      exact splitArgs_not_guard _ _ _ hs
-    | ok ra =>
-      simp only
-      split
-      · split <;> simp
-      · split <;> simp
-  · simp
+  intro h
+  rcases readArgs_error m remaining _ h with h1 | h1
+  · cases h1
+  · exact splitArgs_not_guard _ _ _ h1
 
 /-! ## `find_single_macro` -/
 
@@ -177,12 +199,12 @@ theorem readArgs_not_guard (m : Macro) (remaining : List PTok) (w : String) :
 def UserOk (toks : List PTok) (sp : SearchPos) (env : List Entry) (mi p : Nat) : Prop :=
   p < toks.length ∧ ∃ e, env[mi]? = some e ∧ e.disabled = false ∧
     (if e.m.isFunction then
-      ∃ b tail, trimStart (toks.drop (p + 1)) = ⟨.lparen, b⟩ :: tail ∧
+      ∃ b tail, trimStartAll (toks.drop (p + 1)) = ⟨.lparen, b⟩ :: tail ∧
         sp.next ≤ toks.length - (tail.length + 1)
      else sp.next ≤ p)
 
 theorem parenAfter_spec (toks : List PTok) (i a : Nat) (h : parenAfter toks i = some a) :
-    ∃ b tail, trimStart (toks.drop (i + 1)) = ⟨.lparen, b⟩ :: tail ∧ a = toks.length - (tail.length + 1) := by
+    ∃ b tail, trimStartAll (toks.drop (i + 1)) = ⟨.lparen, b⟩ :: tail ∧ a = toks.length - (tail.length + 1) := by
   unfold parenAfter at h
   split at h
   · rename_i b tail htrim
@@ -194,7 +216,7 @@ theorem matchMacro_spec (toks : List PTok) (i : Nat) (name : String) (sp : Searc
     (env : List Entry) (mi : Nat) (h : matchMacro toks i name sp k env = some mi) :
     ∃ e, k ≤ mi ∧ env[mi - k]? = some e ∧ e.disabled = false ∧
       (if e.m.isFunction then
-        ∃ b tail, trimStart (toks.drop (i + 1)) = ⟨.lparen, b⟩ :: tail ∧
+        ∃ b tail, trimStartAll (toks.drop (i + 1)) = ⟨.lparen, b⟩ :: tail ∧
           sp.next ≤ toks.length - (tail.length + 1)
        else sp.next ≤ i) := by
   induction env generalizing k with
@@ -203,7 +225,7 @@ theorem matchMacro_spec (toks : List PTok) (i : Nat) (name : String) (sp : Searc
     have step : ∀ (h' : matchMacro toks i name sp (k + 1) es = some mi),
         ∃ e', k ≤ mi ∧ (e :: es)[mi - k]? = some e' ∧ e'.disabled = false ∧
           (if e'.m.isFunction then
-            ∃ b tail, trimStart (toks.drop (i + 1)) = ⟨.lparen, b⟩ :: tail ∧
+            ∃ b tail, trimStartAll (toks.drop (i + 1)) = ⟨.lparen, b⟩ :: tail ∧
               sp.next ≤ toks.length - (tail.length + 1)
            else sp.next ≤ i) := by
       intro h'
@@ -447,7 +469,7 @@ theorem applyLoop_no_guard (env : List Entry) (toks : List PTok) (sp : SearchPos
         cases htrim'
         have := hargs a ha
         have htl : tail.length + 1 ≤ toks.length - (p + 1) := by
-          have := trimStart_length_le (toks.drop (p + 1))
+          have := trimStartAll_length_le (toks.drop (p + 1))
           rw [htrim] at this
           simpa using this
         omega
@@ -477,7 +499,7 @@ theorem applyLoop_no_guard (env : List Entry) (toks : List PTok) (sp : SearchPos
       rw [htrim] at htrim'
       cases htrim'
       have htl : tail.length + 1 ≤ toks.length - (p + 1) := by
-        have := trimStart_length_le (toks.drop (p + 1))
+        have := trimStartAll_length_le (toks.drop (p + 1))
         rw [htrim] at this
         simpa using this
       show sp.next < toks.length - rest.length
